@@ -449,6 +449,11 @@ def run(M, rep, tier, only=None):
         for n in ast.walk(f.node):
             if isinstance(n, ast.Attribute) and isinstance(n.value, ast.Name) and n.value.id == "ValidationError":
                 produced.setdefault(n.attr, q)
+            elif isinstance(n, ast.Name) and isinstance(n.ctx, ast.Load) and n.id in vm.assigns:
+                # a module-level table of rules the function applies
+                for m_ in ast.walk(vm.assigns[n.id]):
+                    if isinstance(m_, ast.Attribute) and isinstance(m_.value, ast.Name) and m_.value.id == "ValidationError":
+                        produced.setdefault(m_.attr, q)
     for cname in CATALOGUE:
         rep.check(R3, cname, cname in msgs and cname in produced, "the catalogue entry %s %s" % (
             cname, "does not exist" if cname not in msgs else "is never reported by a function reachable from check_file"),
